@@ -90,12 +90,20 @@ impl Check for C14 {
         let pool = g.name_pool(&mut r, 3);
         // (name, what it holds: true = date-time from a timestamp, false = timestamp from a date)
         let mut bound: Vec<(NameUse, bool)> = Vec::new();
+        // names that hold a plain date
+        let mut date_names: Vec<NameUse> = Vec::new();
+        // offset (minutes) of the default zone as the generator believes it to be (only used to aim timestamps)
+        let mut cur_off: i32 = 0;
         let mut events = Vec::new();
         if session { events.push(Event { actor: 0, op: Op::SessionNew { lang: "en".into() }, clock: ClockScript::Frozen { t } }); }
         for _ in 0..n {
             t = advance(&mut r, t);
             if r.below(10) < zone_rate {
-                let tz = match r.below(8) { 0 => "NOPE".to_string(), 1 | 2 | 3 => g.zone(&mut r).0, _ => r.pick(&g.zones).0.clone() };
+                let tz = match r.below(8) {
+                    0 => "NOPE".to_string(),
+                    1 | 2 | 3 => { let (z, o) = g.zone(&mut r); cur_off = o; z }
+                    _ => { let (z, o) = r.pick(&g.zones).clone(); cur_off = o; z }
+                };
                 events.push(Event { actor: ADMIN, op: Op::Admin(AdminOp::SetTimezone { tz }), clock: ClockScript::Frozen { t } });
                 continue;
             }
@@ -103,12 +111,25 @@ impl Check for C14 {
             let n_lines = 1 + r.usize(3);
             let mut lines = Vec::new();
             for _ in 0..n_lines {
-                if use_session && r.chance(1, 3) {
+                if use_session && r.chance(1, 8) {
+                    // a plain date held in a variable, later asked for its timestamp (under whatever default zone then is)
                     let name = r.pick(&pool).clone();
+                    bound.retain(|(b, _)| b.key() != name.key());
+                    date_names.retain(|b| b.key() != name.key());
+                    date_names.push(name.clone());
+                    lines.push(Line::Sem(Stmt::Assign { name: g.name_use(&mut r, &name), e: date_expr(&mut r, &g) }));
+                } else if use_session && !date_names.is_empty() && r.chance(1, 5) {
+                    let name = r.pick(&date_names).clone();
+                    lines.push(Line::Sem(Stmt::Eval(Expr::AsUnix { e: Box::new(Expr::Var(g.name_use(&mut r, &name))), conn: conn_opt(&mut r), word: unix_word(&mut r) })));
+                } else if use_session && r.chance(1, 3) {
+                    let name = r.pick(&pool).clone();
+                    date_names.retain(|b| b.key() != name.key());
                     let dt = r.chance(1, 2);
                     let e = if dt {
                         let zone = if r.chance(1, 3) { Some(g.zone(&mut r)) } else { None };
-                        Expr::FromUnix { e: Box::new(Expr::Lit(Lit::Num(NumLit::int(ts(&mut r))))), conn: conn_opt(&mut r), zone }
+                        // a third of the instants are an exact start of day in the zone they will be shown in
+                        let n = if r.chance(1, 3) { (r.below(40_000) as i64) * 86400 - zone.as_ref().map(|z| z.1).unwrap_or(cur_off) as i64 * 60 } else { ts(&mut r) };
+                        Expr::FromUnix { e: Box::new(Expr::Lit(Lit::Num(NumLit::int(n)))), conn: conn_opt(&mut r), zone }
                     } else {
                         Expr::AsUnix { e: Box::new(date_expr(&mut r, &g)), conn: conn_opt(&mut r), word: unix_word(&mut r) }
                     };
